@@ -5,7 +5,7 @@ ids="$@"; [ -z "$ids" ] && ids=$(ls /verif/checks | grep '^C')
 mkdir -p /verif/work/sweep
 for id in $ids; do
   s=$(date +%s)
-  timeout 7200 /verif/bin/vcheck run $id --tier $tier -j $jobs > /verif/work/sweep/$id.$tier.log 2>&1
+  timeout ${SWEEP_TIMEOUT:-2400} /verif/bin/vcheck run $id --tier $tier -j $jobs > /verif/work/sweep/$id.$tier.log 2>&1
   rc=$?
   echo "$id rc=$rc $(( $(date +%s)-s ))s $(tail -1 /verif/work/sweep/$id.$tier.log | cut -c1-150)"
 done
